@@ -138,6 +138,12 @@ func (db *MultiBucketBackend) getBucketWithFilePrefixLocked(bucket string, prefi
 
 	response := gofakes3.NewObjectList()
 
+	// No key has empty, '.' or '..' segments, so no key matches such a prefix;
+	// joining it to the bucket path could leave the bucket:
+	if prefixPath != "" && !validObjectName(prefixPath) {
+		return response, nil
+	}
+
 	bucketPath := path.Join(bucket, prefixPath)
 
 	// A prefix that does not lead to a directory matches no keys; that is an
@@ -332,8 +338,16 @@ func (db *MultiBucketBackend) ForceDeleteBucket(name string) error {
 func (db *MultiBucketBackend) BucketExists(name string) (exists bool, err error) {
 	db.lock.Lock()
 	defer db.lock.Unlock()
-	exists, err = afero.Exists(db.bucketFs, name)
-	return
+	return db.bucketExistsLocked(name)
+}
+
+// bucketExistsLocked never treats a name that is not a valid bucket name as a
+// bucket: "." or "" would otherwise address the directory holding all buckets.
+func (db *MultiBucketBackend) bucketExistsLocked(name string) (exists bool, err error) {
+	if err := gofakes3.ValidateBucketName(name); err != nil {
+		return false, nil
+	}
+	return afero.DirExists(db.bucketFs, name)
 }
 
 func (db *MultiBucketBackend) HeadObject(bucketName, objectName string) (*gofakes3.Object, error) {
@@ -341,11 +355,15 @@ func (db *MultiBucketBackend) HeadObject(bucketName, objectName string) (*gofake
 	defer db.lock.Unlock()
 
 	// Another slighly racy check:
-	exists, err := afero.Exists(db.bucketFs, bucketName)
+	exists, err := db.bucketExistsLocked(bucketName)
 	if err != nil {
 		return nil, err
 	} else if !exists {
 		return nil, gofakes3.BucketNotFound(bucketName)
+	}
+
+	if !validObjectName(objectName) {
+		return nil, gofakes3.KeyNotFound(objectName)
 	}
 
 	fullPath := path.Join(bucketName, objectName)
@@ -380,11 +398,15 @@ func (db *MultiBucketBackend) GetObject(bucketName, objectName string, rangeRequ
 	defer db.lock.Unlock()
 
 	// Another slighly racy check:
-	exists, err := afero.Exists(db.bucketFs, bucketName)
+	exists, err := db.bucketExistsLocked(bucketName)
 	if err != nil {
 		return nil, err
 	} else if !exists {
 		return nil, gofakes3.BucketNotFound(bucketName)
+	}
+
+	if !validObjectName(objectName) {
+		return nil, gofakes3.KeyNotFound(objectName)
 	}
 
 	fullPath := path.Join(bucketName, objectName)
@@ -454,11 +476,15 @@ func (db *MultiBucketBackend) PutObject(
 	defer db.lock.Unlock()
 
 	// Another slighly racy check:
-	exists, err := afero.Exists(db.bucketFs, bucketName)
+	exists, err := db.bucketExistsLocked(bucketName)
 	if err != nil {
 		return result, err
 	} else if !exists {
 		return result, gofakes3.BucketNotFound(bucketName)
+	}
+
+	if !validObjectName(objectName) {
+		return result, invalidObjectName(objectName)
 	}
 
 	objectPath := path.Join(bucketName, objectName)
@@ -526,7 +552,7 @@ func (db *MultiBucketBackend) DeleteObject(bucketName, objectName string) (resul
 	defer db.lock.Unlock()
 
 	// Another slighly racy check:
-	exists, err := afero.Exists(db.bucketFs, bucketName)
+	exists, err := db.bucketExistsLocked(bucketName)
 	if err != nil {
 		return result, err
 	} else if !exists {
@@ -537,6 +563,11 @@ func (db *MultiBucketBackend) DeleteObject(bucketName, objectName string) (resul
 }
 
 func (db *MultiBucketBackend) deleteObjectLocked(bucketName, objectName string) error {
+	if !validObjectName(objectName) {
+		// Such a key cannot have been stored, so there is nothing to delete:
+		return nil
+	}
+
 	fullPath := path.Join(bucketName, objectName)
 
 	// S3 does not report an error when attemping to delete a key that does not exist, so
@@ -557,7 +588,7 @@ func (db *MultiBucketBackend) DeleteMulti(bucketName string, objects ...string) 
 	defer db.lock.Unlock()
 
 	// Another slighly racy check:
-	exists, err := afero.Exists(db.bucketFs, bucketName)
+	exists, err := db.bucketExistsLocked(bucketName)
 	if err != nil {
 		return result, err
 	} else if !exists {
